@@ -183,14 +183,20 @@ pub fn shrink(original: &Plan, class: &str, max_candidates: u32, max_time: Durat
     // 5. scalar simplifications
     try_edit(&mut plan, class, &mut b, &mut steps, "no-link-jitter", |p| p.links.iter_mut().for_each(|l| l.jitter_us = 0));
     try_edit(&mut plan, class, &mut b, &mut steps, "no-tick-jitter", |p| p.nodes.iter_mut().for_each(|n| n.tick.jitter_us = 0));
-    try_edit(&mut plan, class, &mut b, &mut steps, "zero-latency", |p| p.links.iter_mut().for_each(|l| l.base_us = 0));
-    try_edit(&mut plan, class, &mut b, &mut steps, "latency-10ms", |p| p.links.iter_mut().for_each(|l| l.base_us = l.base_us.min(10_000)));
+    if plan.oracle.timesync.is_none() {
+        try_edit(&mut plan, class, &mut b, &mut steps, "zero-latency", |p| p.links.iter_mut().for_each(|l| l.base_us = 0));
+        try_edit(&mut plan, class, &mut b, &mut steps, "latency-10ms", |p| p.links.iter_mut().for_each(|l| l.base_us = l.base_us.min(10_000)));
+    }
     try_edit(&mut plan, class, &mut b, &mut steps, "no-prepoll", |p| p.nodes.iter_mut().for_each(|n| n.tick.prepoll_ppm = 0));
+    // edits below would change what the scenario means when the oracle depends on start offsets
+    let timing_sensitive = plan.oracle.timesync.is_some();
+    if !timing_sensitive {
     try_edit(&mut plan, class, &mut b, &mut steps, "uniform-period", |p| {
         let per = 1_000_000 / p.cfg.fps as u64;
         p.nodes.iter_mut().for_each(|n| n.tick.period_us = per)
     });
     try_edit(&mut plan, class, &mut b, &mut steps, "same-start", |p| p.nodes.iter_mut().for_each(|n| n.tick.start_us = 0));
+    }
     try_edit(&mut plan, class, &mut b, &mut steps, "hash-single-seed", |p| p.cfg.hash_per_map = false);
     try_edit(&mut plan, class, &mut b, &mut steps, "no-sparse", |p| p.cfg.sparse = false);
     try_edit(&mut plan, class, &mut b, &mut steps, "no-desync-detection", |p| p.cfg.desync_interval = 0);
